@@ -99,8 +99,15 @@ TileCases(op) ==
       LET c == CaseOf(op, dt, v[1], v[2]) IN
       TileLaw(LAMBDA ins : IF op = "MultidirectionalBroadcast" THEN Multi(ins[1], ins[2]) ELSE Uni(ins[1], ins[2]), c.inputs, v[3]) =>
          PrintT(<<"CASE", ToJson([c EXCEPT !.feat = @ \o <<"tile_law">>] @@ [tile |-> TileField(v[3])])>>)
+\* the same law along any axis (Outcome!TileLawAx): the first operand repeated along a MIDDLE or the last axis, so that the other
+\* one is stretched to an extent of several hundred thousand along an axis that is neither the leading nor (first variant) the last
+TileAxCases(op) ==
+   \A v \in {<<<<2, 3, 2>>, <<2, 1, 2>>, 1>>, <<<<2, 3>>, <<2, 1>>, 1>>, <<<<2, 2, 3, 2>>, <<1, 2>>, 2>>, <<<<2, 3, 2>>, <<1, 2>>, 1>>} : \A dt \in {"f32", "i64"} :
+      LET c == CaseOf(op, dt, v[1], v[2]) iax == [i \in {1} |-> v[3]] oax == <<v[3], v[3]>> IN
+      TileLawAx(LAMBDA ins : IF op = "MultidirectionalBroadcast" THEN Multi(ins[1], ins[2]) ELSE Uni(ins[1], ins[2]), c.inputs, iax, oax) =>
+         PrintT(<<"CASE", ToJson([c EXCEPT !.feat = @ \o <<"tile_law", "tiled_along_axis_" \o ToString(v[3])>>] @@ [tile |-> TileFieldAx(iax, oax)])>>)
 Emit == /\ ~st.done
-        /\ (st.dt = "f32" /\ st.a = <<>> /\ st.b = <<>> => ValueCases(st.op) /\ LongCases(st.op) /\ TileCases(st.op) /\ WideCases(st.op) /\ HighRankCases(st.op) /\ SameDataCases(st.op) /\ RankLadderCases(st.op))
+        /\ (st.dt = "f32" /\ st.a = <<>> /\ st.b = <<>> => ValueCases(st.op) /\ LongCases(st.op) /\ TileCases(st.op) /\ WideCases(st.op) /\ HighRankCases(st.op) /\ SameDataCases(st.op) /\ RankLadderCases(st.op) /\ TileAxCases(st.op))
         /\ PrintT(<<"CASE", ToJson(CaseOf(st.op, st.dt, st.a, st.b))>>)
         /\ (st.dt = "f32" /\ Len(st.a) <= 2 /\ Len(st.b) <= 2 =>
               \A p \in MixedPairs : PrintT(<<"CASE", ToJson(MixedCase(st.op, p[1], p[2], st.a, st.b))>>))
